@@ -161,7 +161,7 @@ func genC08(seed uint64) (*Scenario, *c08Meta) {
 	sc := &Scenario{Prop: "C08"}
 	sc.Files = []FileSpec{{Name: "t0.csv", Content: c01Table(g.rows, 0)}, {Name: "t1.csv", Content: c01Table(g.rows, 2)}, {Name: "bystander.csv", Content: "a,b\n1,2\n"}}
 	if r.Bool(0.6) {
-		g.steps = append(g.steps, c08Step{Kind: "stmt", Src: "DECLARE tv VIEW (id, n); INSERT INTO tv VALUES (1, 10), (2, 20), (3, 30);"})
+		g.steps = append(g.steps, c08Step{Kind: "stmt", Src: "DECLARE tv VIEW (id, n);"}, c08Step{Kind: "stmt", Src: "INSERT INTO tv VALUES (1, 10), (2, 20), (3, 30);"})
 		g.tables = append(g.tables, "tv")
 	}
 	n := r.Range(3, 8)
@@ -175,7 +175,9 @@ func genC08(seed uint64) (*Scenario, *c08Meta) {
 			}
 		} else if r.Bool(0.15) {
 			name := fmt.Sprintf("c%d", i)
-			g.steps = append(g.steps, c08Step{Kind: "stmt", Src: fmt.Sprintf("CREATE TABLE %s (id, n); INSERT INTO %s VALUES (1, 1);", name, name)})
+			// two steps: each Execute call must be one statement, or a failure in the second
+			// half would legitimately leave the effect of the first
+			g.steps = append(g.steps, c08Step{Kind: "stmt", Src: fmt.Sprintf("CREATE TABLE %s (id, n);", name)}, c08Step{Kind: "stmt", Src: fmt.Sprintf("INSERT INTO %s VALUES (1, 1);", name)})
 			g.tables = append(g.tables, name)
 		} else {
 			g.steps = append(g.steps, c08Step{Kind: "stmt", Src: g.okStmt()})
@@ -308,6 +310,7 @@ func (c08) Eval(t *testing.T, c *Case, dec func(int) *Decider) *Outcome {
 		}
 		return false, ""
 	}
+	failedTotal := 0
 	var lastDump map[string]string
 	lastDumpIdx := -1
 	lastDumpOK := false
@@ -353,6 +356,7 @@ func (c08) Eval(t *testing.T, c *Case, dec func(int) *Decider) *Outcome {
 		case "stmt":
 			if e, msg := isErr(i); e {
 				failed++
+				failedTotal++
 				if strings.Contains(msg, "context canceled") || strings.Contains(msg, "Context") {
 					o.Stats.probe("failed-by-cancellation")
 				} else {
@@ -432,6 +436,48 @@ func (c08) Eval(t *testing.T, c *Case, dec func(int) *Decider) *Outcome {
 			} else {
 				o.Stats.probe("untouched-table-identical")
 			}
+		}
+	}
+	// metamorphic: the session without its failed statements must end in the same state
+	if e, _ := isErr(commitIdx); !e && failedTotal > 0 && lastDumpOK && lastDumpIdx == commitIdx-1 {
+		alt := *sc
+		alt.Procs = append([]ProcSpec{}, sc.Procs...)
+		alt.Cancels = nil
+		var am c08Meta
+		am = meta
+		am.Steps = nil
+		for i, st := range meta.Steps {
+			if st.Kind == "stmt" {
+				if failedStmt, _ := isErr(i); failedStmt {
+					continue
+				}
+			}
+			if st.Kind == "probe" {
+				continue
+			}
+			am.Steps = append(am.Steps, st)
+		}
+		keep := alt.Meta
+		alt.Meta = map[string]string{}
+		renderC08(&alt, &am)
+		alt.Meta = keep
+		ares, _ := Execute(t, &alt, dec(2))
+		o.Runs++
+		asecs, _, afin := shellSections(ares.Procs[0].Stdout)
+		if afin {
+			ad := parseTableDump(asecs[fmt.Sprintf("%d.0", len(am.Steps)-2)])
+			for tb, want := range ad {
+				if got, ok := lastDump[tb]; ok && strings.TrimRight(got, "\n") != strings.TrimRight(want, "\n") {
+					o.viol(prop, "failed-statement-changes-nothing", "differs-from-session-without-failed-statements:"+tb[:1],
+						fmt.Sprintf("table %s ends differently than in the same session with the %d failed statement(s) left out: %s", tb, failedTotal, firstDiff(want, got)))
+				}
+			}
+			for _, tb := range meta.Final {
+				if a, b := res.Final[tb+".csv"].Data, ares.Final[tb+".csv"].Data; a != b {
+					o.viol(prop, "commit", "commit-differs-from-session-without-failed-statements", fmt.Sprintf("committed file %s.csv differs from the one written by the same session without its failed statements: %s", tb, firstDiff(b, a)))
+				}
+			}
+			o.Stats.probe("compared-with-session-without-failed-statements")
 		}
 	}
 	o.NonTrivial = o.Stats.Probes["failed-statement-checked"] > 0
